@@ -41,6 +41,7 @@ def run(ctx, rep):
         check_counter_writers(crate, rep, cfg)
         check_depth_ast(crate, rep, cfg)
         check_lexprog(crate, rep, cfg)
+        check_lexoff(crate, rep, cfg)
         check_parseprog(crate, rep, cfg)
         check_errkind(crate, rep, cfg)
         check_delim(crate, rep, cfg)
@@ -671,3 +672,104 @@ def jt_leaf_ok(l):
         return True
     # payload of a ProcessingBody::Loop / ShortCircuit entry popped from processing_bodies
     return any(p in ("as:Loop", "as:Branch", "as:ShortCircuit") for p in l.projs)
+
+
+def check_lexoff(crate, rep, cfg):
+    """C06.LEXOFF — every byte offset at which the lexer splits or slices the source is a *byte* quantity: a constant (the ASCII delimiter
+    widths), a str/slice len(), the result of the byte-level marker search, a position()/count() over a byte iterator, or a sum of such.
+    A character count (chars().position / chars().count) used as a byte offset lands inside a multi-byte character: split_at panics."""
+    from props.c14 import OFFSET_TRANSPARENT
+    n = 0
+    memo = {}
+
+    def helper_returns_bytes(crate_, h, factory):
+        if h.path in memo:
+            return memo[h.path]
+        memo[h.path] = True          # recursion: assume ok
+        htr = Tracer(h, transparent=OFFSET_TRANSPARENT)
+        hok = factory(h, htr)
+        leaves = set()
+        work = [(0, ())]
+        # the return place, looking into Some(..) / tuple aggregates
+        from props.c03 import through
+        for l in htr.place({"l": 0, "p": []}):
+            if l.kind == "agg":
+                st = h.blocks[l.detail[-2]]["s"][l.detail[-1]]
+                for op in st["rv"]["ops"]:
+                    for l2 in htr.operand(op):
+                        if l2.kind == "agg":
+                            st2 = h.blocks[l2.detail[-2]]["s"][l2.detail[-1]]
+                            for op2 in st2["rv"]["ops"]:
+                                leaves |= htr.operand(op2)
+                        else:
+                            leaves.add(l2)
+            else:
+                leaves.add(l)
+        res = all(hok(l, set()) or l.kind in ("agg",) or (l.kind == "const") or (l.kind == "call" and h.local_ty(0) and not is_usize_like(h, l)) for l in leaves)
+        memo[h.path] = res
+        return res
+
+    def is_usize_like(h, l):
+        ct = h.term(l.detail[2])
+        return "usize" in h.local_ty(ct["dest"]["l"])
+
+    def leaf_ok_factory(b, tr):
+        def leaf_ok(leaf, seen):
+            k, d, projs = leaf
+            if k == "const":
+                return True
+            if k == "cycle":
+                return True
+            if k == "call":
+                n0 = d[0]
+                if n0.endswith("::len") and ("str" in n0 or "String" in n0 or "[T]" in n0 or "Vec" in n0):
+                    return True
+                if n0.startswith("parsing::lexer::") and n0 in crate.bodies:
+                    return helper_returns_bytes(crate, crate.bodies[n0], leaf_ok_factory)
+                if n0.endswith("str::<impl str>::find") or n0.endswith("::char_indices") or n0.endswith("char::methods::<impl char>::len_utf8") or "memchr" in n0:
+                    return True
+                if n0.rsplit("::", 1)[-1] in ("position", "count", "rposition"):
+                    ct = b.term(d[2])
+                    rty = ct["atys"][0] if ct["atys"] else ""
+                    return ("u8" in rty or "Bytes" in rty) and "Chars" not in rty and "CharIndices" not in rty
+                return False
+            if k == "op" and d[0] == "bin" and d[1] in ("Add", "AddWithOverflow", "Sub", "SubWithOverflow"):
+                if (d[2], d[3]) in seen:
+                    return True
+                st = b.blocks[d[2]]["s"][d[3]]
+                return all(leaf_ok(l, seen | {(d[2], d[3])}) for op in (st["rv"]["l"], st["rv"]["r"]) for l in tr.operand(op))
+            if k == "param":
+                return True
+            return False
+        return leaf_ok
+    for b in crate.in_files("parsing/lexer.rs"):
+        if b.kind == "const":
+            continue
+        tr = Tracer(b, transparent=OFFSET_TRANSPARENT)
+        leaf_ok = leaf_ok_factory(b, tr)
+        k2 = 0
+        for bb, t in b.calls():
+            cd = callee_def(t)
+            st = t["f"].get("self_ty", "")
+            is_idx = cd in ("std::ops::Index::index", "std::ops::IndexMut::index_mut") and st in ("str", "std::string::String") and "Range" in (t["atys"][1] if len(t["atys"]) > 1 else "")
+            is_split = "str" in cd and cd.endswith(("::split_at", "::split_at_mut", "::split_at_checked"))
+            if not (is_idx or is_split):
+                continue
+            n += 1
+            rep.analysed(b)
+            a = t["args"][1]
+            leaves = set()
+            if is_idx and a["k"] in ("copy", "move"):
+                for f in (".start", ".end"):
+                    leaves |= {l for l in tr.place(a["pl"], [f]) if l.kind != "agg"}
+                if not leaves:
+                    leaves = tr.operand(a)
+            else:
+                leaves = tr.operand(a)
+            bad = [l for l in leaves if not leaf_ok(l, set())]
+            key = "C06.LEXOFF:%s:offset#%d" % (crate.root_of(b).path, k2)
+            k2 += 1
+            rep.add("C06.LEXOFF", key, not bad, b.where(bb), "the byte offset of this split/slice of the source is a byte quantity (constant, len(), byte-level search, position/count "
+                    "over bytes, sums of such)" + ("" if not bad else " — VIOLATED: origin %s: a count of characters used as a byte offset panics inside a multi-byte character"
+                                                   % sorted(leaf_str(l) for l in bad)[:2]))
+    rep.floor("C06.LEXOFF", "str split/slice sites in the lexer [%s]" % cfg, n, 20)
